@@ -442,7 +442,10 @@ class StmtsMixin:
             if kind == 'for' and s.get('Cond'): self.assigned_in(s['Cond'], vs, fs, calls)
             if kind == 'range':
                 vs |= set(st.meta['range'][(s['line'], s['col'])]['mod'])
+            selfvs = self.self_call_effects(calls)
+            vs |= selfvs
             h = st.clone()
+            h.meta['selfhavoc'] = frozenset(selfvs)
             self.havoc_loop_state(h, vs, fs, calls, spec, s)
             henv = SpecEnv(h, {}, entry_old)
             for cl in invs:
@@ -537,9 +540,10 @@ class StmtsMixin:
                 # a slice variable that is only ever re-sliced keeps its backing array (and arrays written
                 # element-wise are havocked below through replace_arrays)
                 old = h.env[oid]
-                if isinstance(old, SliceV) and isinstance(nv, SliceV) and not self.slice_rebased(s, oid):
+                by_self_call = oid in h.meta.get('selfhavoc', ())      # assigned by a recursive call: anything may have happened to it
+                if isinstance(old, SliceV) and isinstance(nv, SliceV) and not by_self_call and not self.slice_rebased(s, oid):
                     nv.arrs = old.arrs
-                if isinstance(old, StrV) and not self.slice_rebased(s, oid):
+                if isinstance(old, StrV) and not by_self_call and not self.slice_rebased(s, oid):
                     nv.arr = old.arr
                 for w in self.lay.wf(nv, tid): h.assume(w)
                 self.bound_value(h, nv, tid)
@@ -618,6 +622,18 @@ class StmtsMixin:
         for name in sorted(gv):
             if ('ghostvar', name) in h.ghost:
                 self.havoc_target(h, SpecEnv(h, {}, h.entry), ('id', name))
+        # ghost heaps (`ghost g(x) = e`) written by `after` clauses that fire inside the body (append, calls, self calls)
+        if fc:
+            body_has_append = any(c[0] == 'call' and c[1]['Fun'].get('Name') == 'append' for c in calls)
+            for cl in fc.get('after'):
+                m = re.match(r'(\S+?)\s*:\s*(.*)$', cl.text, re.S)
+                if not m: continue
+                fires = (m.group(1) == 'append' and body_has_append) or bool(h.meta.get('selfhavoc')) or any(
+                    c[0] == 'call' and (self.callee_key_static(c[1]['Fun'])[0] or '').endswith(m.group(1)) for c in calls)
+                if fires:
+                    for g in re.findall(r'\bghost\s+(\w+)\s*\(', m.group(2)):
+                        self.ghost_read(h, g, z3.IntVal(0))
+                        h.ghost[('gheap', g)] = fresh('hvG_' + g, h.ghost[('gheap', g)].sort())
         for c in calls:
             if c[0] == 'call':
                 key, _ = self.callee_key_static(c[1]['Fun'])
@@ -625,6 +641,33 @@ class StmtsMixin:
                 if ct is not None and ct.get('assigns') and not any(x.text.strip() == 'nothing' for x in ct.get('assigns')):
                     if not spec.get('assigns'):
                         raise Unsupported('loop calls %s which assigns state: the loop needs an assigns clause' % key)
+
+    def self_call_effects(self, calls):
+        """a call of the function literal under verification through its own variable (`oncall f: self`) assigns the
+        captured variables the literal's body assigns"""
+        fc = self.frame.contract if self.frame else None
+        if not fc:
+            return set()
+        selfnames = set()
+        for cl in fc.get('oncall'):
+            m = re.match(r'(\w+)\s*:\s*self\s*$', cl.text)
+            if m: selfnames.add(m.group(1))
+        if not selfnames:
+            return set()
+        hit = False
+        for c in calls:
+            if c[0] == 'call':
+                f = c[1]['Fun']
+                while f['_'] == 'ParenExpr': f = f['X']
+                if f['_'] == 'Ident' and f.get('Name') in selfnames:
+                    hit = True
+        if not hit:
+            return set()
+        decl = self.frame.decl
+        vs, fs, cs = set(), set(), []
+        self.assigned_in(decl.get('Body'), vs, fs, cs)
+        cap = {o['id'] for o in decl.get('captured', []) or []}
+        return vs & cap
 
     def inner_loop_specs(self, s):
         out = []
